@@ -51,7 +51,8 @@ fn gen(rng: &mut Rng, _idx: u64, _tier: Tier) -> Case {
     while rng.chance(0.2) { conns.push(Conn::Refuse { kind: "ConnectionRefused".into() }); }
     // first connection: learn some aircraft (not the last one: it only appears after the faults)
     let n0 = rng.range(1, 25) as usize;
-    let t0 = gen::traffic(rng, &mut acs[..n_ac], n0, d, kinds, false, true, 4_000_000);
+    let mut t0 = gen::traffic(rng, &mut acs[..n_ac], n0, d, kinds, false, true, 4_000_000);
+    gen::long_uptime(rng, &mut t0, 0.03);
     let c0 = chunk(rng);
     let mut ops = gen::ops_of(rng, t0, c0);
     end_badly(rng, &mut ops, &mut acs);
